@@ -15,11 +15,11 @@
 (***************************************************************************)
 EXTENDS Integers, Sequences, FiniteSets, TLC, Json
 
-CONSTANTS MaxVersions, PageSize, MaxPolls, Design, Modes
+CONSTANTS MaxVersions, PageSize, MaxPolls, MaxEmpty, Design, Modes   \* MaxEmpty: empty pages that still carry a continuation token, per listing
 
-VARIABLES mode, vers, cursor, seen, calls, pend, pc, ret, hist, flags
-vars == <<mode, vers, cursor, seen, calls, pend, pc, ret, hist, flags>>
-view == <<mode, vers, cursor, seen, calls, pend, pc, ret, flags>>
+VARIABLES mode, vers, cursor, seen, calls, pend, pc, ret, hist, flags, empties
+vars == <<mode, vers, cursor, seen, calls, pend, pc, ret, hist, flags, empties>>
+view == <<mode, vers, cursor, seen, calls, pend, pc, ret, flags, empties>>
 
 States == {"ENABLED", "DISABLED", "DESTROYED", "DESTROY_SCHEDULED", "PENDING_GENERATION", "GENERATION_FAILED"}
 Destroyable(s) == s \in {"ENABLED", "DISABLED"}
@@ -36,7 +36,7 @@ Init ==
      ELSE IF mode = "poll" THEN vers \in [1 .. 1 -> {"PENDING_GENERATION", "ENABLED", "GENERATION_FAILED", "DISABLED"}]
      ELSE vers = <<>>
   /\ flags \in (IF mode = "sign" THEN SignFlags ELSE NoFlags)
-  /\ cursor = 0 /\ seen = {} /\ calls = 0 /\ pend = 0 /\ pc = "loop" /\ ret = "none" /\ hist = <<>>
+  /\ cursor = 0 /\ seen = {} /\ calls = 0 /\ pend = 0 /\ pc = "loop" /\ ret = "none" /\ hist = <<>> /\ empties = 0
 
 Log(e) == hist' = Append(hist, e)
 
@@ -49,6 +49,13 @@ ListPage ==
   /\ \/ \* the service fails this call
         /\ pc' = "done" /\ ret' = "err"
         /\ Log([op |-> "ListErr", n |-> 0])
+        /\ UNCHANGED <<vers, cursor, seen, pend, empties>>
+     \/ \* a legal empty page: no items, but a continuation token (the listing is not finished)
+        /\ cursor < Len(vers) /\ empties < MaxEmpty
+        /\ empties' = empties + 1
+        /\ Log([op |-> "ListEmpty", n |-> 0])
+        /\ IF Design = "token" THEN pc' = "loop" /\ ret' = ret
+           ELSE pc' = "done" /\ ret' = (IF mode = "wipe" THEN "ok" ELSE IF pend # 0 THEN "pending" ELSE "none_found")   \* n < PageSize: stops
         /\ UNCHANGED <<vers, cursor, seen, pend>>
      \/ \E n \in (IF cursor = Len(vers) THEN {0} ELSE 1 .. Min(PageSize, Len(vers) - cursor)) :
           LET page == cursor + 1 .. cursor + n
@@ -58,6 +65,7 @@ ListPage ==
               maxOf(S) == CHOOSE x \in S : \A y \in S : y <= x
               minOf(S) == CHOOSE x \in S : \A y \in S : x <= y
           IN
+          /\ UNCHANGED empties
           /\ Log([op |-> "List", n |-> n])
           /\ seen' = seen \cup page
           /\ IF mode = "wipe"
@@ -91,7 +99,7 @@ Poll ==
           /\ IF s = "ENABLED" THEN pc' = "done" /\ ret' = "enabled"
              ELSE IF s = "PENDING_GENERATION" THEN pc' = "loop" /\ ret' = ret
              ELSE pc' = "done" /\ ret' = "err"
-  /\ UNCHANGED <<mode, cursor, seen, pend, flags>>
+  /\ UNCHANGED <<mode, cursor, seen, pend, flags, empties>>
 
 (***************************************************************************)
 (* Signer.Sign                                                             *)
@@ -107,7 +115,7 @@ SignStep ==
             ELSE "signature"
   /\ Log([op |-> "Sign", n |-> 0])
   /\ calls' = calls + 1
-  /\ UNCHANGED <<mode, vers, cursor, seen, pend, flags>>
+  /\ UNCHANGED <<mode, vers, cursor, seen, pend, flags, empties>>
 
 Next == ListPage \/ Poll \/ SignStep
 Spec == Init /\ [][Next]_vars /\ WF_vars(Next)
@@ -116,7 +124,7 @@ Spec == Init /\ [][Next]_vars /\ WF_vars(Next)
 (* C20                                                                     *)
 (***************************************************************************)
 C20_Terminates == <>(pc = "done" \/ (mode = "poll" /\ calls = MaxPolls))
-C20_CallBound == mode \in {"wipe", "getver"} => calls <= Len(vers) + 1
+C20_CallBound == mode \in {"wipe", "getver"} => calls <= Len(vers) + 1 + MaxEmpty
 C20_WipeoutComplete ==
   mode = "wipe" /\ pc = "done" /\ ret = "ok" =>
      /\ seen = DOMAIN vers
